@@ -82,7 +82,7 @@ CHECKS = {
          "DESIGN.md 5/C14", True),
 }
 
-CHECKS["C19"] = ("rsx", "source-level symbolic execution (rsx + z3) of the object-writing operations of s3s-fs (put_object, upload_part, complete_multipart_upload) together with FileSystem::prepare_file_write, FileWriter::done, impl Drop for FileWriter, copy_bytes and ChecksumHasher under a SYMBOLIC FAULT SCHEDULE (which body frame fails, which declared checksum mismatches, at which suspension point the future is dropped, which rejection of the code fires); obligations over the file-system effect trace of every path; z3 (LIA) over every interleaving of two writers' effect traces; every finding confirmed on the real backend by a fault / drop-after-p-polls / concurrent-writer family (replayer)",
+CHECKS["C19"] = ("rsx", "source-level symbolic execution (rsx + z3) of the object-writing operations of s3s-fs (put_object, upload_part, complete_multipart_upload) together with FileSystem::prepare_file_write, FileWriter::done, impl Drop for FileWriter, copy_bytes and ChecksumHasher under a SYMBOLIC FAULT SCHEDULE (which body frame fails, which declared checksum mismatches, at which suspension point the future is dropped, which rejection of the code fires); obligations over the file-system effect trace of every path; z3 (LIA) over every interleaving of two writers' effect traces; every finding confirmed on the real backend by a fault / drop-until-completion / barrier-released concurrent-writer family; the adapter in front of the real backend end to end (a fault in every chunk of a chunk-signed upload: refused, previous object unchanged, no temporary file)",
          "for every fault schedule within the bound (<= 3 body frames quick, 6 thorough; one abandonment; all checksum declarations): a write that does not succeed has no effect on the object file and its side files, no temporary file survives any outcome, a successful write is exactly one rename of a temporary file that received exactly the delivered frames in order and was flushed, with every declared checksum matching; for two concurrent writers and every interleaving of their effect traces the object ends as one writer's complete content (temporary names from the atomic counter are distinct)",
          "the file system is an effect-trace model (rename atomic, no disk faults), the path constructors are terms (C17), a dropped future runs the real Drop code of live FileWriter guards and nothing else; disk faults, process crashes, more than two writers symbolically and sub-await data races are outside the claim; the model is validated on the real backend on every run (about 190 fault runs); six known findings (temporary file leaked when dropped during File::create; object / metadata / internal-info are three files published one after another)",
          "DESIGN.md 0.8", True)
